@@ -430,8 +430,9 @@ def check(tier: str) -> int:
     child_contents = sorted({c["content"] for c in pick})
     want = set(child_contents)
     for c in cases:
-        if c["config"] == "A" and c["content"] in want and c["encoding"] in ("utf-8", "ascii"):
-            c["want_outcome"] = True
+        if c["config"] == "A" and c["content"] in want and c["encoding"] in ("utf-8", "ascii") and not c.get("opts") \
+                and c.get("previous") is None:
+            c["want_outcome"] = True  # the plain call only: that is what the real child interpreters run
     # heavy cases (large files) get batches of their own and go first, so that they do not queue up behind each other
     heavy = [c for c in cases if len(c["content"]) > 5000]
     light = [c for c in cases if len(c["content"]) <= 5000]
